@@ -1152,3 +1152,431 @@ async fn f16d_pull_peer_table_after_clean_close() {
         "after all {N} peers closed cleanly and the socket observed the end of every stream: peer table still holds {held} entries and {no_eof} peers never saw the socket drop its write half"
     );
 }
+
+// ===========================================================================
+// Round 3 (appended): F06a - FairQueue::poll_next spins on a stream that wakes
+// its waker while returning Pending (tokio's cooperative budget does that)
+// ===========================================================================
+
+mod f06a {
+    use super::*;
+    use crate::fair_queue::FairQueue;
+    use futures::task::{waker, ArcWake};
+    use futures::{Stream, StreamExt};
+    use std::pin::Pin;
+    use std::sync::atomic::{AtomicBool, AtomicUsize, Ordering};
+    use std::sync::Arc;
+    use std::task::{Context, Poll};
+
+    struct CountingWaker {
+        wakes: AtomicUsize,
+    }
+    impl ArcWake for CountingWaker {
+        fn wake_by_ref(arc_self: &Arc<Self>) {
+            arc_self.wakes.fetch_add(1, Ordering::SeqCst);
+        }
+    }
+
+    /// Models a tokio I/O resource under the cooperative-scheduling budget:
+    /// while the task's budget is exhausted it returns `Pending` and wakes
+    /// the waker at once ("yield to the scheduler, then poll me again"); the
+    /// budget only comes back when the task's outermost poll returns to the
+    /// executor. With budget it is simply ready.
+    ///
+    /// Safety valve so that the demonstration terminates on code that never
+    /// returns to the executor: after SPIN_LIMIT polls it stops self-waking.
+    struct BudgetedStream {
+        has_budget: Arc<AtomicBool>,
+        polls: Arc<AtomicUsize>,
+    }
+    const SPIN_LIMIT: usize = 100_000;
+
+    impl Stream for BudgetedStream {
+        type Item = u32;
+        fn poll_next(self: Pin<&mut Self>, cx: &mut Context<'_>) -> Poll<Option<u32>> {
+            let n = self.polls.fetch_add(1, Ordering::SeqCst) + 1;
+            if self.has_budget.load(Ordering::SeqCst) {
+                return Poll::Ready(Some(42));
+            }
+            if n <= SPIN_LIMIT {
+                cx.waker().wake_by_ref();
+            }
+            Poll::Pending
+        }
+    }
+
+    /// ONE outer `poll_next` call must perform a bounded number of inner
+    /// polls and return `Pending` (having arranged for the caller to be woken)
+    /// when the only stream answered "Pending, wake me right away".
+    #[test]
+    fn f06a_fair_queue_spins_on_self_waking_pending_stream() {
+        let has_budget = Arc::new(AtomicBool::new(false));
+        let polls = Arc::new(AtomicUsize::new(0));
+        let mut fq: FairQueue<BudgetedStream, u32> = FairQueue::new(true);
+        fq.inner().lock().insert(
+            7,
+            BudgetedStream {
+                has_budget: has_budget.clone(),
+                polls: polls.clone(),
+            },
+        );
+        let counting = Arc::new(CountingWaker {
+            wakes: AtomicUsize::new(0),
+        });
+        let w = waker(counting.clone());
+        let mut cx = Context::from_waker(&w);
+
+        // Outer poll #1: the task's budget is exhausted.
+        let r1 = Pin::new(&mut fq).poll_next(&mut cx);
+        let inner_polls = polls.load(Ordering::SeqCst);
+        let wakes = counting.wakes.load(Ordering::SeqCst);
+        eprintln!(
+            "F06a: outer poll #1 -> {:?} after {inner_polls} inner polls, outer waker woken {wakes} times",
+            r1
+        );
+        assert!(r1.is_pending(), "expected Pending, got {r1:?}");
+        assert!(
+            inner_polls <= 1000,
+            "a single FairQueue::poll_next call polled the self-waking stream {inner_polls} times \
+             (it only stopped because the test stream gives up self-waking after {SPIN_LIMIT} polls): \
+             with a real tokio resource whose budget is exhausted this is an endless busy loop"
+        );
+        assert!(
+            wakes >= 1,
+            "poll_next returned Pending but the caller's waker was never woken: the self-wake was lost"
+        );
+
+        // The executor regained control: budget replenished, task polled again.
+        has_budget.store(true, Ordering::SeqCst);
+        let r2 = Pin::new(&mut fq).poll_next(&mut cx);
+        assert_eq!(r2, Poll::Ready(Some((7, 42))));
+    }
+
+    /// Self-wakes on the first `pending` polls, then yields 42, then ends.
+    struct SelfWakingN {
+        pending: usize,
+        done: bool,
+    }
+    impl Stream for SelfWakingN {
+        type Item = u32;
+        fn poll_next(mut self: Pin<&mut Self>, cx: &mut Context<'_>) -> Poll<Option<u32>> {
+            if self.pending > 0 {
+                self.pending -= 1;
+                cx.waker().wake_by_ref();
+                return Poll::Pending;
+            }
+            if self.done {
+                return Poll::Ready(None);
+            }
+            self.done = true;
+            Poll::Ready(Some(42))
+        }
+    }
+
+    /// GUARD (passes on the current code by design, must keep passing after a
+    /// repair): a stream that self-wakes 5 times and then yields 42 must be
+    /// driven to completion by a real executor, i.e. a repaired poll_next that
+    /// returns Pending after a self-wake must not lose the wake-up.
+    #[test]
+    fn f06a_guard_self_waking_stream_still_completes_under_executor() {
+        let (tx, rx) = std::sync::mpsc::channel();
+        std::thread::spawn(move || {
+            let mut fq: FairQueue<SelfWakingN, u32> = FairQueue::new(true);
+            fq.inner().lock().insert(
+                1,
+                SelfWakingN {
+                    pending: 5,
+                    done: false,
+                },
+            );
+            let item = futures::executor::block_on(fq.next());
+            let _ = tx.send(item);
+        });
+        match rx.recv_timeout(Duration::from_secs(3)) {
+            Ok(item) => assert_eq!(item, Some((1, 42))),
+            Err(_) => panic!("FairQueue did not deliver the item within 3 s (lost wake-up or spin)"),
+        }
+    }
+
+    // -----------------------------------------------------------------------
+    // the same with real tokio resources (child processes: a spinning thread
+    // cannot be cancelled, so the hang is contained in a process we can kill)
+    // -----------------------------------------------------------------------
+
+    struct ChildOutcome {
+        status: Option<std::process::ExitStatus>, // None: hung and killed
+        wall: Duration,
+        cpu_secs: f64, // user+system CPU time of the child when it ended/was killed
+        stderr_tail: String,
+    }
+
+    fn child_cpu_secs(pid: u32) -> f64 {
+        // /proc/<pid>/stat fields 14 and 15 (utime, stime) in clock ticks (100 Hz on Linux)
+        std::fs::read_to_string(format!("/proc/{pid}/stat"))
+            .ok()
+            .and_then(|s| {
+                let rest = s.rsplit_once(") ")?.1.to_string();
+                let f: Vec<&str> = rest.split_whitespace().collect();
+                let ut: f64 = f.get(11)?.parse().ok()?;
+                let st: f64 = f.get(12)?.parse().ok()?;
+                Some((ut + st) / 100.0)
+            })
+            .unwrap_or(-1.0)
+    }
+
+    fn is_child(name: &str) -> bool {
+        std::env::var(CHILD_ENV).ok().as_deref() == Some(name)
+    }
+
+    fn run_child(name: &str, watchdog: Duration) -> ChildOutcome {
+        use std::io::Read;
+        use std::process::{Command, Stdio};
+        let mut child = Command::new(std::env::current_exe().unwrap())
+            .args([
+                &format!("verif_triage::f06a::{name}"),
+                "--exact",
+                "--nocapture",
+                "--test-threads",
+                "1",
+            ])
+            .env(CHILD_ENV, name)
+            .env("RUST_BACKTRACE", "0")
+            .stdout(Stdio::null())
+            .stderr(Stdio::piped())
+            .spawn()
+            .unwrap();
+        let pid = child.id();
+        let start = std::time::Instant::now();
+        let mut cpu = 0.0;
+        let status = loop {
+            if let Some(st) = child.try_wait().unwrap() {
+                break Some(st);
+            }
+            cpu = child_cpu_secs(pid);
+            if start.elapsed() > watchdog {
+                let _ = child.kill();
+                let _ = child.wait();
+                break None;
+            }
+            std::thread::sleep(Duration::from_millis(20));
+        };
+        let wall = start.elapsed();
+        let mut stderr = String::new();
+        if let Some(mut e) = child.stderr.take() {
+            let _ = e.read_to_string(&mut stderr);
+        }
+        let lines: Vec<&str> = stderr.lines().filter(|l| !l.trim().is_empty()).collect();
+        let tail = lines[lines.len().saturating_sub(8)..].join("\n    ");
+        ChildOutcome {
+            status,
+            wall,
+            cpu_secs: cpu,
+            stderr_tail: tail,
+        }
+    }
+
+    fn assert_child_ok(name: &str, o: ChildOutcome) {
+        match o.status {
+            None => panic!(
+                "{name}: child HUNG: killed by the watchdog after {:.1} s wall clock, having burnt {:.1} s of CPU; stderr tail:\n    {}",
+                o.wall.as_secs_f64(),
+                o.cpu_secs,
+                o.stderr_tail
+            ),
+            Some(st) => assert!(
+                st.success(),
+                "{name}: child failed: {st:?}; stderr tail:\n    {}",
+                o.stderr_tail
+            ),
+        }
+    }
+
+    /// A tokio mpsc receiver as a Stream (`poll_recv` takes part in tokio's
+    /// cooperative budget like every tokio I/O resource).
+    struct MpscStream(tokio::sync::mpsc::UnboundedReceiver<u32>);
+    impl Stream for MpscStream {
+        type Item = u32;
+        fn poll_next(mut self: Pin<&mut Self>, cx: &mut Context<'_>) -> Poll<Option<u32>> {
+            self.0.poll_recv(cx)
+        }
+    }
+
+    async fn take_300_from_tokio_channel(label: &str) {
+        let (tx, rx) = tokio::sync::mpsc::unbounded_channel();
+        for i in 0..300u32 {
+            tx.send(i).unwrap();
+        }
+        let mut fq: FairQueue<MpscStream, u32> = FairQueue::new(true);
+        fq.inner().lock().insert(1, MpscStream(rx));
+        for i in 0..300u32 {
+            let item = fq.next().await;
+            assert_eq!(item, Some((1, i)));
+            if i % 32 == 0 || (120..136).contains(&i) {
+                eprintln!("F06a({label}): received item {i}");
+            }
+        }
+        drop(tx);
+    }
+
+    /// Deterministic with real tokio: 300 items are already queued in a tokio
+    /// channel that feeds the FairQueue; the future passed to
+    /// `Runtime::block_on` of a MULTI-THREAD runtime (what `#[tokio::main]` and
+    /// `#[tokio::test(flavor = "multi_thread")]` bodies are) takes them in a
+    /// loop. Every item is immediately available, so the future never yields
+    /// and its budget (128 operations) runs out at the 129th item. That future
+    /// is polled outside any scheduler context, where tokio reports an
+    /// exhausted budget as "Pending + wake the waker at once".
+    #[test]
+    fn f06a_tokio_budget_exhaustion_hangs_fair_queue() {
+        const NAME: &str = "f06a_tokio_budget_exhaustion_hangs_fair_queue";
+        if !is_child(NAME) {
+            return assert_child_ok(NAME, run_child(NAME, Duration::from_secs(3)));
+        }
+        let rt = tokio::runtime::Builder::new_multi_thread()
+            .worker_threads(1)
+            .enable_all()
+            .build()
+            .unwrap();
+        rt.block_on(take_300_from_tokio_channel("block_on, multi-thread rt"));
+    }
+
+    /// INFORMATION (passes on the current code): the same loop inside a spawned
+    /// task, or on a current-thread runtime, does not hang, because there tokio
+    /// DEFERS the wake of an exhausted budget to the scheduler instead of
+    /// waking synchronously (tokio::runtime::context::defer).
+    #[test]
+    fn f06a_info_tokio_budget_in_spawned_task_or_current_thread_is_fine() {
+        const NAME: &str = "f06a_info_tokio_budget_in_spawned_task_or_current_thread_is_fine";
+        if !is_child(NAME) {
+            return assert_child_ok(NAME, run_child(NAME, Duration::from_secs(3)));
+        }
+        let rt = tokio::runtime::Builder::new_multi_thread()
+            .worker_threads(1)
+            .enable_all()
+            .build()
+            .unwrap();
+        rt.block_on(async {
+            tokio::spawn(take_300_from_tokio_channel("spawned task"))
+                .await
+                .unwrap()
+        });
+        let rt = tokio::runtime::Builder::new_current_thread()
+            .enable_all()
+            .build()
+            .unwrap();
+        rt.block_on(take_300_from_tokio_channel("block_on, current-thread rt"));
+    }
+
+    /// Exploration switch: with VERIF_F06A_SPAWN=1 the socket loop of the e2e
+    /// tests runs inside `tokio::spawn` (on a worker thread) instead of directly
+    /// in the future given to `Runtime::block_on`.
+    async fn maybe_spawned<F>(f: F)
+    where
+        F: std::future::Future<Output = ()> + Send + 'static,
+    {
+        if std::env::var("VERIF_F06A_SPAWN").is_ok() {
+            eprintln!("F06a: socket loop runs in a spawned task");
+            tokio::spawn(f).await.unwrap()
+        } else {
+            f.await
+        }
+    }
+
+    /// End to end, one receiving socket: 16 raw PUSH peers each write 64
+    /// messages of 8 KiB (8 MiB in total) BEFORE the PULL socket starts
+    /// receiving, so that far more than 128 socket reads are immediately
+    /// ready. PULL must receive all 1024 messages.
+    #[test]
+    fn f06a_e2e_pull_with_backlog_hangs() {
+        const NAME: &str = "f06a_e2e_pull_with_backlog_hangs";
+        if !is_child(NAME) {
+            return assert_child_ok(NAME, run_child(NAME, Duration::from_secs(5)));
+        }
+        const PEERS: usize = 16;
+        const MSGS: usize = 64;
+        let rt = tokio::runtime::Builder::new_multi_thread()
+            .worker_threads(2)
+            .enable_all()
+            .build()
+            .unwrap();
+        rt.block_on(maybe_spawned(async {
+            let mut pull = crate::PullSocket::new();
+            let port = match pull.bind("tcp://127.0.0.1:0").await.unwrap() {
+                crate::Endpoint::Tcp(_, port) => port,
+                other => panic!("unexpected endpoint {other}"),
+            };
+            let mut writers = vec![];
+            for _ in 0..PEERS {
+                let mut s = TcpStream::connect(("127.0.0.1", port)).await.unwrap();
+                scripted_handshake(&mut s, "PUSH").await;
+                writers.push(tokio::spawn(async move {
+                    let mut frame = vec![0x02u8];
+                    frame.extend_from_slice(&(8192u64).to_be_bytes());
+                    frame.extend_from_slice(&[0x55u8; 8192]);
+                    for _ in 0..MSGS {
+                        s.write_all(&frame).await.unwrap();
+                    }
+                    s.flush().await.unwrap();
+                    s // keep the connection open
+                }));
+            }
+            // let the backlog build up in the socket buffers
+            tokio::time::sleep(Duration::from_millis(500)).await;
+            for i in 0..PEERS * MSGS {
+                let m = pull.recv().await.unwrap();
+                assert_eq!(m.get(0).unwrap().len(), 8192);
+                if i % 64 == 0 {
+                    eprintln!("F06a(e2e PULL): received {} messages", i + 1);
+                }
+            }
+            eprintln!("F06a(e2e PULL): received all {} messages", PEERS * MSGS);
+        }));
+    }
+
+    /// End to end as first observed: 16 REQ clients x 300 requests hammering one
+    /// REP socket on a multi-thread runtime.
+    #[test]
+    fn f06a_e2e_req_clients_hammer_rep_hangs() {
+        const NAME: &str = "f06a_e2e_req_clients_hammer_rep_hangs";
+        if !is_child(NAME) {
+            return assert_child_ok(NAME, run_child(NAME, Duration::from_secs(6)));
+        }
+        const CLIENTS: usize = 16;
+        const MSGS: usize = 300;
+        let rt = tokio::runtime::Builder::new_multi_thread()
+            .worker_threads(4)
+            .enable_all()
+            .build()
+            .unwrap();
+        rt.block_on(maybe_spawned(async {
+            let mut rep = RepSocket::new();
+            let ep = rep.bind("tcp://127.0.0.1:0").await.unwrap().to_string();
+            let mut clients = vec![];
+            for c in 0..CLIENTS {
+                let ep = ep.clone();
+                clients.push(tokio::spawn(async move {
+                    let mut req = ReqSocket::new();
+                    req.connect(&ep).await.unwrap();
+                    for i in 0..MSGS {
+                        req.send(ZmqMessage::from(format!("c{c}-{i}")))
+                            .await
+                            .unwrap();
+                        let r = req.recv().await.unwrap();
+                        assert_eq!(r.len(), 1);
+                    }
+                }));
+            }
+            for i in 0..CLIENTS * MSGS {
+                let m = rep.recv().await.unwrap();
+                rep.send(m).await.unwrap();
+                if i % 400 == 0 {
+                    eprintln!("F06a(e2e REP): served {} requests", i + 1);
+                }
+            }
+            eprintln!("F06a(e2e REP): served all {} requests", CLIENTS * MSGS);
+            for c in clients {
+                c.await.unwrap();
+            }
+        }));
+    }
+}
